@@ -5,24 +5,80 @@ From Texel Require Import Prelude.Base Index.Model Snap.Model Snap.ProofsBasics 
 Import ListNotations.
 Open Scope Z_scope.
 
+(** ** the loop after kmpDeduplicate: trailing vertices equal to the first one are dropped *)
+Lemma stripTrailing_spec a : forall t, exists k,
+  t = stripTrailing a t ++ repeat a k /\
+  (stripTrailing a t = [] \/ exists m z, stripTrailing a t = m ++ [z] /\ z <> a).
+Proof.
+  induction t as [| b t IH]; [exists 0%nat; split; [reflexivity | left; reflexivity] |].
+  destruct IH as [k [Et Hs]]. cbn [stripTrailing]. destruct (stripTrailing a t) as [| c s] eqn:Es.
+  - destruct (pt_eqb_spec a b) as [<- | N].
+    + exists (S k). split; [cbn [app repeat]; rewrite Et at 1; reflexivity | left; reflexivity].
+    + exists k. split; [cbn [app]; rewrite Et at 1; reflexivity |]. right. exists [], b. split; [reflexivity | congruence].
+  - exists k. split; [cbn [app]; rewrite Et at 1; reflexivity |]. right.
+    destruct Hs as [Hs | [m [z [Hs Hz]]]]; [discriminate |]. exists (b :: m), z. rewrite Hs. split; [reflexivity | exact Hz].
+Qed.
+
+(** [r = trimClosing r ++ a ... a], and the trimmed ring is [a] alone or ends in a vertex different from [a] *)
+Lemma trimClosing_spec a t : exists k,
+  a :: t = trimClosing (a :: t) ++ repeat a k /\
+  (trimClosing (a :: t) = [a] \/ exists m z, trimClosing (a :: t) = a :: m ++ [z] /\ z <> a).
+Proof.
+  destruct (stripTrailing_spec a t) as [k [Et Hs]]. exists k. cbn [trimClosing app]. split; [rewrite Et at 1; reflexivity |].
+  destruct Hs as [-> | [m [z [-> Hz]]]]; [left; reflexivity | right; exists m, z; auto].
+Qed.
+
+Lemma trimClosing_nil : trimClosing [] = [].
+Proof. reflexivity. Qed.
+
+Lemma trimClosing_subseq r : subseq (trimClosing r) r.
+Proof.
+  destruct r as [| a t]; [constructor |]. destruct (trimClosing_spec a t) as [k [E _]].
+  rewrite E at 2. rewrite <- (app_nil_r (trimClosing (a :: t))) at 1.
+  apply subseq_app; [apply subseq_refl | apply subseq_nil_l].
+Qed.
+
+Lemma trimClosing_ne r : r <> [] -> trimClosing r <> [].
+Proof. destruct r; [congruence | discriminate]. Qed.
+
+(** nothing to drop in a repeat-free ring *)
+Lemma trimClosing_NoDup r : NoDup r -> trimClosing r = r.
+Proof.
+  destruct r as [| a t]; [reflexivity |]. intro ND. destruct (trimClosing_spec a t) as [k [E _]].
+  destruct k as [| k]; [cbn [repeat] in E; rewrite app_nil_r in E; symmetry; exact E |].
+  exfalso. cbn [trimClosing app] in E. inversion E as [Et]. inversion ND as [| ? ? Hn _]. subst. apply Hn.
+  rewrite Et. apply in_or_app. right. left. reflexivity.
+Qed.
+
+(** what reaches asPointOrLine after the loop is repeat-free by construction *)
+Lemma trimClosing_short_NoDup r : (length (trimClosing r) < 3)%nat -> NoDup (trimClosing r).
+Proof.
+  destruct r as [| a t]; [intros _; constructor |]. destruct (trimClosing_spec a t) as [k [_ [-> | [m [z [-> Hz]]]]]].
+  - intros _. constructor; [intros [] | constructor].
+  - cbn [length]. rewrite app_length. cbn [length]. intro Hl. destruct m; [| cbn [length] in Hl; lia].
+    cbn [app]. constructor; [intros [E | []]; congruence | constructor; [intros [] | constructor]].
+Qed.
+
 (** ** cleanupNewRing *)
 Lemma cleanupNewRing_eq nr o m : cleanupNewRing nr o m =
   let r1 := dropClosing nr in
   if (length r1 <? 3)%nat then Ok (mkSets [] [] (asPointOrLine r1))
-  else do r2 <- kmpDeduplicate r1;
+  else do rk <- kmpDeduplicate r1;
+       let r2 := trimClosing rk in
        if (length r2 <? 3)%nat then Ok (mkSets [] [] (asPointOrLine r2)) else splitRing r2 o m.
 Proof. reflexivity. Qed.
 
+(** [rk] is the output of kmpDeduplicate, [trimClosing rk] what is split or kept as a point or line *)
 Lemma cleanup_cases nr o m sets : cleanupNewRing nr o m = Ok sets ->
   ((length (dropClosing nr) < 3)%nat /\ sets = mkSets [] [] (asPointOrLine (dropClosing nr))) \/
-  (exists r2, (3 <= length (dropClosing nr))%nat /\ kmpDeduplicate (dropClosing nr) = Ok r2 /\
-     (((length r2 < 3)%nat /\ sets = mkSets [] [] (asPointOrLine r2)) \/
-      ((3 <= length r2)%nat /\ splitRing r2 o m = Ok sets))).
+  (exists rk, (3 <= length (dropClosing nr))%nat /\ kmpDeduplicate (dropClosing nr) = Ok rk /\
+     (((length (trimClosing rk) < 3)%nat /\ sets = mkSets [] [] (asPointOrLine (trimClosing rk))) \/
+      ((3 <= length (trimClosing rk))%nat /\ splitRing (trimClosing rk) o m = Ok sets))).
 Proof.
   rewrite cleanupNewRing_eq. cbn zeta. destruct (Nat.ltb_spec (length (dropClosing nr)) 3) as [H1 | H1].
   - intro H. inversion H. left. auto.
-  - intro H. bind_inv H r2 Hk. right. exists r2. split; [exact H1 |]. split; [exact Hk |].
-    destruct (Nat.ltb_spec (length r2) 3) as [H2 | H2]; [left; inversion H; auto | right; auto].
+  - intro H. bind_inv H rk Hk. right. exists rk. split; [exact H1 |]. split; [exact Hk |].
+    destruct (Nat.ltb_spec (length (trimClosing rk)) 3) as [H2 | H2]; [left; inversion H; auto | right; auto].
 Qed.
 
 Lemma asPointOrLine_spec (r : ring) x : In x (asPointOrLine r) -> x = r /\ r <> [].
@@ -71,32 +127,34 @@ Section WithKmp.
   Proof.
     intros H p Hp. apply pts_of_sets_rings in Hp. destruct Hp as [x [Hx Hpx]].
     pose proof (subseq_incl _ _ (dropClosing_subseq nr)) as Hd.
-    destruct (cleanup_cases _ _ _ _ H) as [[_ ->] | [r2 [_ [Hk [[_ ->] | [_ Hs]]]]]].
+    destruct (cleanup_cases _ _ _ _ H) as [[_ ->] | [rk [_ [Hk [[_ ->] | [_ Hs]]]]]].
     - apply small_sets_rings in Hx. destruct Hx as [-> _]. apply Hd, Hpx.
-    - apply small_sets_rings in Hx. destruct Hx as [-> _]. apply Hd, (subseq_incl _ _ (kmp_subseq _ _ Hk)), Hpx.
-    - apply Hd, (subseq_incl _ _ (kmp_subseq _ _ Hk)), (split_incl _ _ _ _ Hs).
+    - apply small_sets_rings in Hx. destruct Hx as [-> _].
+      apply Hd, (subseq_incl _ _ (kmp_subseq _ _ Hk)), (subseq_incl _ _ (trimClosing_subseq rk)), Hpx.
+    - apply Hd, (subseq_incl _ _ (kmp_subseq _ _ Hk)), (subseq_incl _ _ (trimClosing_subseq rk)), (split_incl _ _ _ _ Hs).
       apply pts_of_sets_rings. exists x. auto.
   Qed.
 
-  (** every ring is repeat-free when the flags contain the repeated vertices of the routed ring *)
+  (** every ring is repeat-free when the flags contain the repeated vertices of the routed ring; a spike-removal
+      output of fewer than three vertices is repeat-free because of the loop that follows it (repair of F14:
+      kmpDeduplicate itself can return [p; p], ProofsKmpShort.kmp_short_nodup_refuted) *)
   Theorem cleanup_repeat_free nr o m sets :
-    (forall r r', no_adj_dup r -> kmpDeduplicate r = Ok r' -> (length r' < 3)%nat -> NoDup r') ->
     no_adj_lin nr ->
     (forall p, (2 <= count_occ pt_dec (dropClosing nr) p)%nat -> m p = true) ->
     cleanupNewRing nr o m = Ok sets -> Forall (@NoDup pt) (rings_of_sets sets).
   Proof.
-    intros kmp_short_nodup Hn Hfl H. rewrite Forall_forall.
-    destruct (cleanup_cases _ _ _ _ H) as [[Hl ->] | [r2 [Hl [Hk [[Hl2 ->] | [_ Hs]]]]]]; intros x Hx.
+    intros Hn Hfl H. rewrite Forall_forall.
+    destruct (cleanup_cases _ _ _ _ H) as [[Hl ->] | [rk [Hl [Hk [[Hl2 ->] | [_ Hs]]]]]]; intros x Hx.
     - apply small_sets_rings in Hx. destruct Hx as [-> _].
       apply dropClosing_no_adj_lin in Hn. destruct (dropClosing nr) as [| a [| b [| c t]]]; cbn [length] in Hl; try lia.
       + constructor.
       + constructor; [intros [] | constructor].
       + constructor; [| constructor; [intros [] | constructor]].
         intros [E | []]. apply (no_adj_lin_head _ _ _ Hn). auto.
-    - apply small_sets_rings in Hx. destruct Hx as [-> _].
-      apply (kmp_short_nodup _ _ (dropClosing_no_adj_dup nr Hn ltac:(lia)) Hk Hl2).
-    - pose proof (split_repeat_free r2 o m sets) as Hr. rewrite Forall_forall in Hr. apply Hr; try assumption.
-      intros p Hp. apply Hfl. pose proof (subseq_count_occ pt_dec _ _ p (kmp_subseq _ _ Hk)). lia.
+    - apply small_sets_rings in Hx. destruct Hx as [-> _]. apply trimClosing_short_NoDup, Hl2.
+    - pose proof (split_repeat_free (trimClosing rk) o m sets) as Hr. rewrite Forall_forall in Hr. apply Hr; try assumption.
+      intros p Hp. apply Hfl. pose proof (subseq_count_occ pt_dec _ _ p (kmp_subseq _ _ Hk)).
+      pose proof (subseq_count_occ pt_dec _ _ p (trimClosing_subseq rk)). lia.
   Qed.
 End WithKmp.
 
@@ -111,7 +169,7 @@ Proof.
             Forall (fun x : ring => (1 <= length x <= 2)%nat) (asPointOrLine r)).
   { intros r Hl. rewrite Forall_forall. intros x Hx. apply asPointOrLine_spec in Hx. destruct Hx as [-> Hne].
     destruct r; [congruence | cbn [length] in *; lia]. }
-  destruct (cleanup_cases _ _ _ _ H) as [[Hl ->] | [r2 [_ [Hk [[Hl2 ->] | [_ Hs]]]]]]; cbn [outers inners pointsAndLines].
+  destruct (cleanup_cases _ _ _ _ H) as [[Hl ->] | [rk [_ [Hk [[Hl2 ->] | [_ Hs]]]]]]; cbn [outers inners pointsAndLines].
   - repeat split; try constructor. apply Hsmall, Hl.
   - repeat split; try constructor. apply Hsmall, Hl2.
   - apply (split_orientation _ _ _ _ Hs).
